@@ -19,6 +19,8 @@ import (
 	"testing"
 	"time"
 
+	"github.com/bluenviron/mediamtx/internal/conf"
+	"github.com/bluenviron/mediamtx/internal/recordstore"
 	"github.com/bluenviron/mediamtx/internal/verifrt"
 )
 
@@ -120,6 +122,9 @@ type vf28Shape struct {
 	A      int    `json:"a"`
 	B      int    `json:"b"`
 	What   string `json:"what"`
+	Incons string `json:"incons"` // pair: extra_track | missing_track | codec | timescale
+	Mtxi   string `json:"mtxi"`   // pair: continuing | not_continuing | absent | absent_both
+	Files  int    `json:"files"`  // pair: 2 | 3
 }
 
 type vf28Case struct {
@@ -427,6 +432,132 @@ func vf28Run() vf27Run {
 	return run
 }
 
+// ---------------------------------------------------------------------------- inconsistent neighbours
+
+// vf28Pool: first segments of three real recordings (H264+AAC, H264 only, AAC only) and the
+// second segment of the first one.
+type vf28Pool struct {
+	va1, va2, v1, a1 *vf27Seg
+}
+
+func vf28SegName(cdir string, ms int64) string {
+	return recordstore.Path{Start: vf27Base.Add(time.Duration(ms) * time.Millisecond), Path: "cam"}.Encode(
+		recordstore.PathAddExtension(filepath.Join(cdir, "%path/%Y-%m-%d_%H-%M-%S-%f"), conf.RecordFormatFMP4))
+}
+
+// vf28Mtxi rewrites (or removes) the mtxi box of a segment header.
+func vf28Mtxi(t testing.TB, b []byte, remove bool, stream []byte, number uint64, dtsNs int64) []byte {
+	tree := vf28Parse(b)
+	moov := vf28Path(tree, "moov")
+	if remove {
+		var ch []*vf28Node
+		for _, c := range moov.Children {
+			if c.Type != "udta" {
+				ch = append(ch, c)
+			}
+		}
+		moov.Children = ch
+		return vf28Serialize(tree)
+	}
+	n := vf28Path(tree, "moov", "udta", "mtxi")
+	if n == nil || len(n.Payload) < 44 {
+		t.Fatalf("no mtxi box in the recorded segment")
+	}
+	if stream != nil {
+		copy(n.Payload[4:20], stream)
+		binary.BigEndian.PutUint64(n.Payload[20:], number)
+		binary.BigEndian.PutUint64(n.Payload[28:], uint64(dtsNs))
+	}
+	return vf28Serialize(tree)
+}
+
+func vf28MtxiOf(t testing.TB, b []byte) (stream []byte, number uint64, dtsNs int64) {
+	n := vf28Path(vf28Parse(b), "moov", "udta", "mtxi")
+	if n == nil || len(n.Payload) < 44 {
+		t.Fatalf("no mtxi box in the recorded segment")
+	}
+	return append([]byte{}, n.Payload[4:20]...), binary.BigEndian.Uint64(n.Payload[20:]), int64(binary.BigEndian.Uint64(n.Payload[28:]))
+}
+
+// vf28PairDir builds the directory of a "pair" shape and returns the requests for it and the
+// instant of the second file.
+func vf28PairDir(t testing.TB, cdir string, sh vf28Shape, pool vf28Pool) ([]string, int64) {
+	var a, b *vf27Seg
+	bBytes := []byte(nil)
+	switch sh.Incons {
+	case "extra_track":
+		a, b = pool.v1, pool.va1
+	case "missing_track":
+		a, b = pool.va1, pool.v1
+	case "codec":
+		a, b = pool.v1, pool.a1
+	case "timescale":
+		a, b = pool.va1, pool.va2
+		tree := vf28Parse(b.Bytes)
+		n := vf28Path(tree, "moov", "trak#2", "mdia", "mdhd")
+		if n == nil {
+			t.Fatalf("no second track in the recorded segment")
+		}
+		binary.BigEndian.PutUint32(n.Payload[12:], 44100)
+		bBytes = vf28Serialize(tree)
+	default:
+		t.Fatalf("unknown inconsistency %s", sh.Incons)
+	}
+	if bBytes == nil {
+		bBytes = b.Bytes
+	}
+	aBytes := a.Bytes
+	aStart := int64(0)
+	bStart := aStart + a.HdrDur
+	cStart := bStart + b.HdrDur
+	stream, number, dts := vf28MtxiOf(t, aBytes)
+	cBytes := bBytes
+	switch sh.Mtxi {
+	case "continuing":
+		cBytes = vf28Mtxi(t, bBytes, false, stream, number+2, dts+(a.HdrDur+b.HdrDur)*1000000)
+		bBytes = vf28Mtxi(t, bBytes, false, stream, number+1, dts+a.HdrDur*1000000)
+	case "not_continuing":
+		// the second file keeps the stream id of the recording it comes from; the third continues the second
+		bs, bn, bd := vf28MtxiOf(t, bBytes)
+		if string(bs) == string(stream) {
+			bs[0] ^= 0xff
+			bBytes = vf28Mtxi(t, bBytes, false, bs, bn, bd)
+		}
+		cBytes = vf28Mtxi(t, bBytes, false, bs, bn+1, bd+b.HdrDur*1000000)
+	case "absent":
+		bBytes = vf28Mtxi(t, bBytes, true, nil, 0, 0)
+		cBytes = bBytes
+	case "absent_both":
+		aBytes = vf28Mtxi(t, aBytes, true, nil, 0, 0)
+		bBytes = vf28Mtxi(t, bBytes, true, nil, 0, 0)
+		cBytes = bBytes
+	default:
+		t.Fatalf("unknown mtxi relation %s", sh.Mtxi)
+	}
+	write := func(ms int64, data []byte) {
+		if err := os.WriteFile(vf28SegName(cdir, ms), data, 0o644); err != nil {
+			t.Fatal(err)
+		}
+	}
+	write(aStart, aBytes)
+	write(bStart, bBytes)
+	if sh.Files == 3 {
+		write(cStart, cBytes)
+	}
+	at := func(ms int64) string {
+		return strings.ReplaceAll(vf27Base.Add(time.Duration(ms)*time.Millisecond).Format(time.RFC3339Nano), "+", "%2B")
+	}
+	return []string{
+		"/list?path=cam",
+		"/list?path=cam&start=" + at(aStart+50) + "&end=" + at(bStart+100),
+		"/get?path=cam&duration=3600&start=" + at(aStart-1000),
+		fmt.Sprintf("/get?path=cam&duration=%dms&start=%s", a.HdrDur+150, at(aStart+50)),
+		"/get?path=cam&duration=3600&format=mp4&start=" + at(aStart-1000),
+		"/get?path=cam&duration=0.2&start=" + at(bStart+10),
+		fmt.Sprintf("/get?path=cam&duration=%dms&format=mp4&start=%s", a.HdrDur+150, at(aStart+50)),
+	}, bStart
+}
+
 type vf28Resp struct {
 	Status int    `json:"status"`
 	Kind   string `json:"kind"` // data | error | other
@@ -451,6 +582,30 @@ func TestVerif_C28_Corrupt(t *testing.T) {
 	mid := segs[1]
 	if len(mid.Parts) < 2 {
 		t.Fatalf("the middle segment has %d parts", len(mid.Parts))
+	}
+	pool := vf28Pool{va1: segs[0], va2: segs[1]}
+	{
+		vrun := vf28Run()
+		vrun.Audio = false
+		var us []vf27Unit
+		for _, u := range vrun.Units {
+			if u.Track == 1 {
+				us = append(us, u)
+			}
+		}
+		vrun.Units = us
+		vf := vf27Record(t, t.TempDir(), "cam", vrun)
+		arun, _ := vf27StdRun("a", 20000)
+		af := vf27Record(t, t.TempDir(), "cam", arun)
+		if len(vf) == 0 || len(af) == 0 {
+			t.Fatalf("recordings for the inconsistent-neighbour shapes failed")
+		}
+		pool.v1, pool.a1 = vf27LoadSeg(t, vf[0]), vf27LoadSeg(t, af[0])
+		for _, sg := range []*vf27Seg{pool.v1, pool.a1} {
+			if sg.LayoutErr != "" || sg.HdrDur == 0 {
+				t.Fatalf("unexpected recording %s: %s", sg.Path, sg.LayoutErr)
+			}
+		}
 	}
 	child := &vf27Child{t: t}
 	if mb := verifrt.Param("AS_MB", 0); mb > 0 {
@@ -495,7 +650,11 @@ func TestVerif_C28_Corrupt(t *testing.T) {
 		}
 		fp := filepath.Join(cdir, "cam", filepath.Base(mid.Path))
 		size := -1
-		if c.Sh.Kind == "foreign" {
+		caseURLs := urls
+		startMs := mid.StartMs
+		if c.Sh.Kind == "pair" {
+			caseURLs, startMs = vf28PairDir(t, cdir, c.Sh, pool)
+		} else if c.Sh.Kind == "foreign" {
 			vf28Foreign(t, fp, c.Sh.What, mid, filepath.Join(cdir, "elsewhere"))
 		} else {
 			b := vf28Apply(t, mid.Bytes, c.Sh)
@@ -504,7 +663,7 @@ func TestVerif_C28_Corrupt(t *testing.T) {
 				t.Fatal(err)
 			}
 		}
-		rs, alive, crash := child.do(vf27Req{Dir: cdir, URLs: urls})
+		rs, alive, crash := child.do(vf27Req{Dir: cdir, URLs: caseURLs})
 		resps := []vf28Resp{}
 		if alive {
 			for _, h := range rs.HTTP {
@@ -525,7 +684,7 @@ func TestVerif_C28_Corrupt(t *testing.T) {
 		}
 		out.Emit(map[string]any{"id": c.ID, "sh": c.Sh, "nb": c.NB, "size": size,
 			"obs": map[string]any{"alive": alive, "panic": crash, "responses": resps}})
-		mb, _ := json.Marshal(map[string]any{"id": c.ID, "dir": cdir, "start": at(mid.StartMs)})
+		mb, _ := json.Marshal(map[string]any{"id": c.ID, "dir": cdir, "start": at(startMs)})
 		manifest.Write(append(mb, '\n'))
 		n++
 	})
